@@ -6,8 +6,9 @@ use crate::hast::{H, hb};
 use crate::props::c08::map_h;
 use crate::util::Rng;
 
-pub const KINDS: [&str; 18] = [
+pub const KINDS: [&str; 19] = [
     "decoy-trap",
+    "change-type-argument",
     "reference-group-definition",
     "literal-kind",
     "drop-argument",
@@ -166,6 +167,20 @@ pub fn perturb(h: &H, r: &mut Rng) -> Option<(H, &'static str)> {
         let w = wrong(r);
         let coin = r.chance(1, 2);
         let (trap_int, trap_bool) = if kind == "decoy-trap" { (decoy_trap(true, r), decoy_trap(false, r)) } else { (H::Int, H::Int) };
+        // names bound as type parameters anywhere in the program
+        let mut tparams: Vec<String> = vec![];
+        crate::props::c08::walk(h, &mut |x| {
+            if let H::Lam(n, _, Some(d), _) | H::Pi(n, _, d, _) = x {
+                if matches!(d.strip(), H::Type) && n != "_" && !tparams.contains(n) {
+                    tparams.push(n.clone());
+                }
+            }
+        });
+        let other_tparam = |me: &str, pick: usize| -> Option<String> {
+            let others: Vec<&String> = tparams.iter().filter(|t| t.as_str() != me).collect();
+            if others.is_empty() { None } else { Some(others[pick % others.len()].clone()) }
+        };
+        let pick = r.usize(64);
         let out = map_h(h, &mut |x| {
             let here = k == target;
             k += 1;
@@ -173,6 +188,19 @@ pub fn perturb(h: &H, r: &mut Rng) -> Option<(H, &'static str)> {
                 return None;
             }
             let res = match (kind, x) {
+                ("change-type-argument", H::App(f, a)) => match a.strip() {
+                    H::Int => Some(H::App(f.clone(), hb(H::Bool))),
+                    H::Bool => Some(H::App(f.clone(), hb(H::Int))),
+                    H::Var(v) if tparams.contains(v) => match other_tparam(v, pick) {
+                        Some(o) => Some(H::App(f.clone(), hb(H::Var(o)))),
+                        None => Some(H::App(f.clone(), hb(H::Int))),
+                    },
+                    _ => None,
+                },
+                ("change-type-argument", H::Lam(nm, im, Some(d), b)) => match d.strip() {
+                    H::Var(v) if tparams.contains(v) => other_tparam(v, pick).map(|o| H::Lam(nm.clone(), *im, Some(hb(H::Var(o))), b.clone())),
+                    _ => None,
+                },
                 ("decoy-trap", H::Lit(_)) => Some(trap_int.clone()),
                 ("decoy-trap", H::True | H::False) => Some(trap_bool.clone()),
                 ("literal-kind", H::Lit(_)) => Some(if coin { H::True } else { H::Type }),
